@@ -6,6 +6,7 @@ import MjwVerif.Lemmas.Real
 import MjwVerif.Gen.Ray
 
 set_option linter.unusedSimpArgs false
+set_option linter.unusedVariables false
 namespace Mjw.Lemmas.C34
 open Mjw Mjw.Gen.Ray
 
@@ -472,5 +473,445 @@ theorem cylSide_inv (lp lv size : V3 ℝ) (x : ℝ) (part : Int) (h : CylCapInv 
     nlinarith [this]
   · left; exact h
   · left; exact h
+
+/-! ## ray_box: stage decomposition in continuation-passing form
+  `boxFaceK` / `boxAxisK` are K-generic transcriptions of one face test / one axis block of the generated
+  `ray_box`; `ray_box_eq` (by `rfl`) ties the generated definition to their composition. -/
+
+/-- one face test of `ray_box` in continuation-passing form. `lpi lvi szi` are the coordinates along the
+    face's axis, `lp0 lv0 sz0`, `lp1 lv1 sz1` those of the two in-face axes. -/
+def boxFaceK {K : Type} [Scalar K] {α : Type} (axis sgn i0 i1 : Int) (lpi lvi szi lp0 lv0 sz0 lp1 lv1 sz1 : K)
+    (setAll : V6 K → K → V6 K)
+    (id0 id1 : Int) (p0 p1 : K) (all : V6 K) (x : K) (face_axis face_side : Int)
+    (k : K → Int → Int → K → K → V6 K → K → Int → Int → α) : α :=
+  let sol : K := ((((Scalar.lit sgn 0 : K) * szi) - lpi) / lvi)
+  let (id0, id1, p0, p1, all, x, face_axis, face_side) :=
+    if (Scalar.ge sol (Scalar.lit 0 0 : K)) then
+      let p0 : K := (lp0 + (sol * lv0))
+      let p1 : K := (lp1 + (sol * lv1))
+      let (x, face_axis, face_side, all) :=
+        if ((Scalar.le (Scalar.abs p0) sz0) && (Scalar.le (Scalar.abs p1) sz1)) then
+          let (x, face_axis, face_side) :=
+            if ((Scalar.lt x (Scalar.lit 0 0 : K)) || (Scalar.lt sol x)) then
+              (sol, axis, sgn)
+            else
+              (x, face_axis, face_side)
+          let all : V6 K := setAll all sol
+          (x, face_axis, face_side, all)
+        else
+          (x, face_axis, face_side, all)
+      (i0, i1, p0, p1, all, x, face_axis, face_side)
+    else
+      (id0, id1, p0, p1, all, x, face_axis, face_side)
+  k sol id0 id1 p0 p1 all x face_axis face_side
+
+/-- both faces of one axis, gated by `|lvec_axis| > MJ_MINVAL` -/
+def boxAxisK {K : Type} [Scalar K] {α : Type} (axis i0 i1 : Int) (lpi lvi szi lp0 lv0 sz0 lp1 lv1 sz1 : K)
+    (setAllM setAllP : V6 K → K → V6 K)
+    (sol : K) (id0 id1 : Int) (p0 p1 : K) (all : V6 K) (x : K) (face_axis face_side : Int)
+    (k : K → Int → Int → K → K → V6 K → K → Int → Int → α) : α :=
+  let (sol, id0, id1, p0, p1, all, x, face_axis, face_side) :=
+    if (Scalar.gt (Scalar.abs lvi) (Scalar.lit 1 (-15) : K)) then
+      boxFaceK axis (-1 : Int) i0 i1 lpi lvi szi lp0 lv0 sz0 lp1 lv1 sz1 setAllM id0 id1 p0 p1 all x face_axis face_side
+        (fun sol id0 id1 p0 p1 all x face_axis face_side =>
+          boxFaceK axis (1 : Int) i0 i1 lpi lvi szi lp0 lv0 sz0 lp1 lv1 sz1 setAllP id0 id1 p0 p1 all x face_axis face_side
+            (fun sol id0 id1 p0 p1 all x face_axis face_side =>
+              (sol, id0, id1, p0, p1, all, x, face_axis, face_side)))
+    else
+      (sol, id0, id1, p0, p1, all, x, face_axis, face_side)
+  k sol id0 id1 p0 p1 all x face_axis face_side
+
+def boxAll0 {K : Type} [Scalar K] : V6 K := (⟨(Scalar.lit (-1) 0 : K), (Scalar.lit (-1) 0 : K), (Scalar.lit (-1) 0 : K), (Scalar.lit (-1) 0 : K), (Scalar.lit (-1) 0 : K), (Scalar.lit (-1) 0 : K)⟩ : V6 K)
+
+def boxNormal {K : Type} [Scalar K] (mat : M33 K) (x : K) (face_axis face_side : Int) : V3 K :=
+    let normal : V3 K := (V3.zero : V3 K)
+    let normal :=
+      if (Scalar.ge x (Scalar.lit 0 0 : K)) then
+        let normal : V3 K := V3.set normal face_axis (Scalar.ofInt face_side : K)
+        let normal : V3 K := (M33.mulVec mat normal)
+        normal
+      else
+        normal
+    normal
+
+theorem ray_box_eq (pos : V3 ℝ) (mat : M33 ℝ) (size pnt vec : V3 ℝ) :
+    ray_box pos mat size pnt vec =
+      (let (dist_sphere, _) := ray_sphere pos (V3.dot size size) pnt vec
+       if Scalar.lt dist_sphere (Scalar.lit 0 0 : ℝ) then
+         ((Scalar.lit (-1) 0 : ℝ), boxAll0, (V3.zero : V3 ℝ))
+       else
+         let (lpnt, lvec) := _ray_map pos mat pnt vec
+         boxAxisK 0 1 2 lpnt.c0 lvec.c0 size.c0 lpnt.c1 lvec.c1 size.c1 lpnt.c2 lvec.c2 size.c2
+           (fun all sol => { all with c0 := sol }) (fun all sol => { all with c1 := sol })
+           (Scalar.lit 0 0 : ℝ) 0 0 (Scalar.lit 0 0 : ℝ) (Scalar.lit 0 0 : ℝ) boxAll0 (Scalar.lit (-1) 0 : ℝ) (-1) (-1)
+           (fun sol id0 id1 p0 p1 all x face_axis face_side =>
+         boxAxisK 1 0 2 lpnt.c1 lvec.c1 size.c1 lpnt.c0 lvec.c0 size.c0 lpnt.c2 lvec.c2 size.c2
+           (fun all sol => { all with c2 := sol }) (fun all sol => { all with c3 := sol })
+           sol id0 id1 p0 p1 all x face_axis face_side
+           (fun sol id0 id1 p0 p1 all x face_axis face_side =>
+         boxAxisK 2 0 1 lpnt.c2 lvec.c2 size.c2 lpnt.c0 lvec.c0 size.c0 lpnt.c1 lvec.c1 size.c1
+           (fun all sol => { all with c4 := sol }) (fun all sol => { all with c5 := sol })
+           sol id0 id1 p0 p1 all x face_axis face_side
+           (fun sol id0 id1 p0 p1 all x face_axis face_side =>
+             (x, all, boxNormal mat x face_axis face_side))))) := by
+  rfl
+
+
+/-- `t` is a non-negative ray parameter at which the local ray point lies on the face `axis = sgn·size`
+    within the bounds of the two other axes -/
+def FaceCand (lpi lvi szi lp0 lv0 sz0 lp1 lv1 sz1 : ℝ) (sgn : Int) (t : ℝ) : Prop :=
+  0 ≤ t ∧ lpi + t * lvi = (sgn : ℝ) * szi ∧ |lp0 + t * lv0| ≤ sz0 ∧ |lp1 + t * lv1| ≤ sz1
+
+theorem lit_int (n : Int) : (Scalar.lit n 0 : ℝ) = (n : ℝ) := by simp
+
+theorem boxFaceK_spec (axis sgn i0 i1 : Int) (lpi lvi szi lp0 lv0 sz0 lp1 lv1 sz1 : ℝ)
+    (setAll : V6 ℝ → ℝ → V6 ℝ) (id0 id1 : Int) (p0 p1 : ℝ) (all : V6 ℝ) (x : ℝ) (fa fs : Int)
+    (I : ℝ → Int → Int → Prop) (C : ℝ → Prop)
+    (hlv : lvi ≠ 0) (hx : x = -1 ∨ 0 ≤ x) (hI : 0 ≤ x → I x fa fs) (hC : ∀ t, C t → 0 ≤ x ∧ x ≤ t)
+    (hnew : ∀ t, FaceCand lpi lvi szi lp0 lv0 sz0 lp1 lv1 sz1 sgn t → I t axis sgn) :
+    ∃ (sol' : ℝ) (id0' id1' : Int) (p0' p1' : ℝ) (all' : V6 ℝ) (x' : ℝ) (fa' fs' : Int),
+      (∀ {α : Type} (k : ℝ → Int → Int → ℝ → ℝ → V6 ℝ → ℝ → Int → Int → α),
+        boxFaceK axis sgn i0 i1 lpi lvi szi lp0 lv0 sz0 lp1 lv1 sz1 setAll id0 id1 p0 p1 all x fa fs k
+          = k sol' id0' id1' p0' p1' all' x' fa' fs') ∧
+      (x' = -1 ∨ 0 ≤ x') ∧ (0 ≤ x' → I x' fa' fs') ∧
+      (∀ t, (C t ∨ FaceCand lpi lvi szi lp0 lv0 sz0 lp1 lv1 sz1 sgn t) → 0 ≤ x' ∧ x' ≤ t) := by
+  have huniq : ∀ t, FaceCand lpi lvi szi lp0 lv0 sz0 lp1 lv1 sz1 sgn t → t = ((sgn : ℝ) * szi - lpi) / lvi := by
+    intro t ht
+    have := ht.2.1
+    field_simp
+    linarith
+  have hon : lpi + ((sgn : ℝ) * szi - lpi) / lvi * lvi = (sgn : ℝ) * szi := cap_z _ _ _ hlv
+  generalize hsol : ((sgn : ℝ) * szi - lpi) / lvi = sol at huniq hon
+  by_cases h1 : 0 ≤ sol
+  · by_cases h2 : |lp0 + sol * lv0| ≤ sz0 ∧ |lp1 + sol * lv1| ≤ sz1
+    · have hcand : FaceCand lpi lvi szi lp0 lv0 sz0 lp1 lv1 sz1 sgn sol := ⟨h1, hon, h2.1, h2.2⟩
+      by_cases h3 : x < 0 ∨ sol < x
+      · refine ⟨sol, i0, i1, lp0 + sol * lv0, lp1 + sol * lv1, setAll all sol, sol, axis, sgn, ?_, Or.inr h1,
+          fun _ => hnew sol hcand, ?_⟩
+        · intro α k
+          simp only [boxFaceK, sge, sle, slt, sabs, lit_zero, lit_int sgn, Bool.and_eq_true, Bool.or_eq_true,
+            hmul, hadd, hsub, hdiv, hsol, h1, h2, h3, and_self, if_true]
+        · rintro t (ht | ht)
+          · obtain ⟨a, b⟩ := hC t ht
+            rcases h3 with h3 | h3
+            · linarith
+            · exact ⟨h1, by linarith⟩
+          · rw [huniq t ht]; exact ⟨h1, le_refl _⟩
+      · refine ⟨sol, i0, i1, lp0 + sol * lv0, lp1 + sol * lv1, setAll all sol, x, fa, fs, ?_, hx, hI, ?_⟩
+        · intro α k
+          simp only [boxFaceK, sge, sle, slt, sabs, lit_zero, lit_int sgn, Bool.and_eq_true, Bool.or_eq_true,
+            hmul, hadd, hsub, hdiv, hsol, h1, h2, h3, and_self, if_true, if_false]
+        · rw [not_or, not_lt, not_lt] at h3
+          rintro t (ht | ht)
+          · exact hC t ht
+          · rw [huniq t ht]; exact h3
+    · refine ⟨sol, i0, i1, lp0 + sol * lv0, lp1 + sol * lv1, all, x, fa, fs, ?_, hx, hI, ?_⟩
+      · intro α k
+        simp only [boxFaceK, sge, sle, slt, sabs, lit_zero, lit_int sgn, Bool.and_eq_true, Bool.or_eq_true,
+          hmul, hadd, hsub, hdiv, hsol, h1, h2, and_self, if_true, if_false]
+      · rintro t (ht | ht)
+        · exact hC t ht
+        · exfalso; have := huniq t ht; subst this; exact h2 ⟨ht.2.2.1, ht.2.2.2⟩
+  · refine ⟨sol, id0, id1, p0, p1, all, x, fa, fs, ?_, hx, hI, ?_⟩
+    · intro α k
+      simp only [boxFaceK, sge, sle, slt, sabs, lit_zero, lit_int sgn, Bool.and_eq_true, Bool.or_eq_true,
+        hmul, hadd, hsub, hdiv, hsol, h1, if_false]
+    · rintro t (ht | ht)
+      · exact hC t ht
+      · exfalso; have := huniq t ht; subst this; exact h1 ht.1
+
+theorem boxAxisK_spec (axis i0 i1 : Int) (lpi lvi szi lp0 lv0 sz0 lp1 lv1 sz1 : ℝ)
+    (setAllM setAllP : V6 ℝ → ℝ → V6 ℝ) (sol : ℝ) (id0 id1 : Int) (p0 p1 : ℝ) (all : V6 ℝ) (x : ℝ)
+    (fa fs : Int) (I : ℝ → Int → Int → Prop) (C : ℝ → Prop)
+    (hx : x = -1 ∨ 0 ≤ x) (hI : 0 ≤ x → I x fa fs) (hC : ∀ t, C t → 0 ≤ x ∧ x ≤ t)
+    (hnewM : ∀ t, FaceCand lpi lvi szi lp0 lv0 sz0 lp1 lv1 sz1 (-1) t → I t axis (-1))
+    (hnewP : ∀ t, FaceCand lpi lvi szi lp0 lv0 sz0 lp1 lv1 sz1 1 t → I t axis 1) :
+    ∃ (sol' : ℝ) (id0' id1' : Int) (p0' p1' : ℝ) (all' : V6 ℝ) (x' : ℝ) (fa' fs' : Int),
+      (∀ {α : Type} (k : ℝ → Int → Int → ℝ → ℝ → V6 ℝ → ℝ → Int → Int → α),
+        boxAxisK axis i0 i1 lpi lvi szi lp0 lv0 sz0 lp1 lv1 sz1 setAllM setAllP sol id0 id1 p0 p1 all x fa fs k
+          = k sol' id0' id1' p0' p1' all' x' fa' fs') ∧
+      (x' = -1 ∨ 0 ≤ x') ∧ (0 ≤ x' → I x' fa' fs') ∧
+      (∀ t, (C t ∨ (minval < |lvi| ∧ (FaceCand lpi lvi szi lp0 lv0 sz0 lp1 lv1 sz1 (-1) t ∨
+          FaceCand lpi lvi szi lp0 lv0 sz0 lp1 lv1 sz1 1 t))) → 0 ≤ x' ∧ x' ≤ t) := by
+  by_cases hg : minval < |lvi|
+  · have hlv : lvi ≠ 0 := by
+      intro h0; rw [h0, abs_zero] at hg; linarith [minval_pos]
+    obtain ⟨sa, ia0, ia1, pa0, pa1, alla, xa, faa, fsa, eqa, hxa, hIa, hCa⟩ :=
+      boxFaceK_spec axis (-1) i0 i1 lpi lvi szi lp0 lv0 sz0 lp1 lv1 sz1 setAllM id0 id1 p0 p1 all x fa fs
+        I C hlv hx hI hC hnewM
+    obtain ⟨sb, ib0, ib1, pb0, pb1, allb, xb, fab, fsb, eqb, hxb, hIb, hCb⟩ :=
+      boxFaceK_spec axis 1 i0 i1 lpi lvi szi lp0 lv0 sz0 lp1 lv1 sz1 setAllP ia0 ia1 pa0 pa1 alla xa faa fsa
+        I _ hlv hxa hIa hCa hnewP
+    refine ⟨sb, ib0, ib1, pb0, pb1, allb, xb, fab, fsb, ?_, hxb, hIb, ?_⟩
+    · intro α k
+      simp only [boxAxisK, sgt, sabs, lit_minval', hg, if_true]
+      rw [eqa, eqb]
+    · rintro t (ht | ⟨-, ht | ht⟩)
+      · exact hCb t (Or.inl (Or.inl ht))
+      · exact hCb t (Or.inl (Or.inr ht))
+      · exact hCb t (Or.inr ht)
+  · refine ⟨sol, id0, id1, p0, p1, all, x, fa, fs, ?_, hx, hI, ?_⟩
+    · intro α k
+      simp only [boxAxisK, sgt, sabs, lit_minval', hg, if_false]
+    · rintro t (ht | ⟨hg', -⟩)
+      · exact hC t ht
+      · exact absurd hg' hg
+
+/-- the ray point at parameter `t` lies on face (`fa`, `fs`) of the box, `fs = ∓1` -/
+def BoxHit (lp lv size : V3 ℝ) (t : ℝ) (fa fs : Int) : Prop :=
+  (fs = -1 ∨ fs = 1) ∧
+  ((fa = 0 ∧ FaceCand lp.c0 lv.c0 size.c0 lp.c1 lv.c1 size.c1 lp.c2 lv.c2 size.c2 fs t) ∨
+   (fa = 1 ∧ FaceCand lp.c1 lv.c1 size.c1 lp.c0 lv.c0 size.c0 lp.c2 lv.c2 size.c2 fs t) ∨
+   (fa = 2 ∧ FaceCand lp.c2 lv.c2 size.c2 lp.c0 lv.c0 size.c0 lp.c1 lv.c1 size.c1 fs t))
+
+/-- `t ≥ 0` is a ray parameter at which the ray meets one of the (up to six) faces that the code tests,
+    i.e. faces whose axis has `|lvec_axis| > MJ_MINVAL` -/
+def BoxCand (lp lv size : V3 ℝ) (t : ℝ) : Prop :=
+  (minval < |lv.c0| ∧ (FaceCand lp.c0 lv.c0 size.c0 lp.c1 lv.c1 size.c1 lp.c2 lv.c2 size.c2 (-1) t ∨
+      FaceCand lp.c0 lv.c0 size.c0 lp.c1 lv.c1 size.c1 lp.c2 lv.c2 size.c2 1 t)) ∨
+  (minval < |lv.c1| ∧ (FaceCand lp.c1 lv.c1 size.c1 lp.c0 lv.c0 size.c0 lp.c2 lv.c2 size.c2 (-1) t ∨
+      FaceCand lp.c1 lv.c1 size.c1 lp.c0 lv.c0 size.c0 lp.c2 lv.c2 size.c2 1 t)) ∨
+  (minval < |lv.c2| ∧ (FaceCand lp.c2 lv.c2 size.c2 lp.c0 lv.c0 size.c0 lp.c1 lv.c1 size.c1 (-1) t ∨
+      FaceCand lp.c2 lv.c2 size.c2 lp.c0 lv.c0 size.c0 lp.c1 lv.c1 size.c1 1 t))
+
+theorem ray_box_spec (pos : V3 ℝ) (mat : M33 ℝ) (size pnt vec : V3 ℝ) :
+    ((ray_sphere pos (V3.dot size size) pnt vec).1 < 0 ∧
+      ray_box pos mat size pnt vec = (-1, boxAll0, V3.zero)) ∨
+    (¬ (ray_sphere pos (V3.dot size size) pnt vec).1 < 0 ∧
+      ∃ (x : ℝ) (fa fs : Int) (all : V6 ℝ),
+        ray_box pos mat size pnt vec = (x, all, boxNormal mat x fa fs) ∧ (x = -1 ∨ 0 ≤ x) ∧
+        (0 ≤ x → BoxHit (_ray_map pos mat pnt vec).1 (_ray_map pos mat pnt vec).2 size x fa fs) ∧
+        (∀ t, BoxCand (_ray_map pos mat pnt vec).1 (_ray_map pos mat pnt vec).2 size t → 0 ≤ x ∧ x ≤ t)) := by
+  obtain ⟨lp, lv, hl⟩ : ∃ lp lv, _ray_map pos mat pnt vec = (lp, lv) := ⟨_, _, rfl⟩
+  obtain ⟨d, n, hd⟩ : ∃ d n, ray_sphere pos (V3.dot size size) pnt vec = (d, n) := ⟨_, _, rfl⟩
+  rw [ray_box_eq, hl, hd]
+  simp only [slt, lit_zero, lit_neg_one]
+  by_cases hneg : d < 0
+  · left
+    exact ⟨hneg, by rw [if_pos hneg]⟩
+  · right
+    refine ⟨hneg, ?_⟩
+    rw [if_neg hneg]
+    obtain ⟨s0, i0, j0, p0, q0, all0, x0, fa0, fs0, eq0, hx0, hI0, hC0⟩ :=
+      boxAxisK_spec 0 1 2 lp.c0 lv.c0 size.c0 lp.c1 lv.c1 size.c1 lp.c2 lv.c2 size.c2
+        (fun all sol => { all with c0 := sol }) (fun all sol => { all with c1 := sol })
+        0 0 0 0 0 boxAll0 (-1) (-1) (-1) (BoxHit lp lv size) (fun _ => False)
+        (Or.inl rfl) (fun h => absurd h (by norm_num)) (fun t h => h.elim)
+        (fun t h => ⟨Or.inl rfl, Or.inl ⟨rfl, h⟩⟩) (fun t h => ⟨Or.inr rfl, Or.inl ⟨rfl, h⟩⟩)
+    obtain ⟨s1, i1, j1, p1, q1, all1, x1, fa1, fs1, eq1, hx1, hI1, hC1⟩ :=
+      boxAxisK_spec 1 0 2 lp.c1 lv.c1 size.c1 lp.c0 lv.c0 size.c0 lp.c2 lv.c2 size.c2
+        (fun all sol => { all with c2 := sol }) (fun all sol => { all with c3 := sol })
+        s0 i0 j0 p0 q0 all0 x0 fa0 fs0 (BoxHit lp lv size) _ hx0 hI0 hC0
+        (fun t h => ⟨Or.inl rfl, Or.inr (Or.inl ⟨rfl, h⟩)⟩) (fun t h => ⟨Or.inr rfl, Or.inr (Or.inl ⟨rfl, h⟩)⟩)
+    obtain ⟨s2, i2, j2, p2, q2, all2, x2, fa2, fs2, eq2, hx2, hI2, hC2⟩ :=
+      boxAxisK_spec 2 0 1 lp.c2 lv.c2 size.c2 lp.c0 lv.c0 size.c0 lp.c1 lv.c1 size.c1
+        (fun all sol => { all with c4 := sol }) (fun all sol => { all with c5 := sol })
+        s1 i1 j1 p1 q1 all1 x1 fa1 fs1 (BoxHit lp lv size) _ hx1 hI1 hC1
+        (fun t h => ⟨Or.inl rfl, Or.inr (Or.inr ⟨rfl, h⟩)⟩) (fun t h => ⟨Or.inr rfl, Or.inr (Or.inr ⟨rfl, h⟩)⟩)
+    refine ⟨x2, fa2, fs2, all2, ?_, hx2, hI2, ?_⟩
+    · rw [eq0, eq1, eq2]
+    · rintro t (ht | ht | ht)
+      · exact hC2 t (Or.inl (Or.inl (Or.inr ht)))
+      · exact hC2 t (Or.inl (Or.inr ht))
+      · exact hC2 t (Or.inr ht)
+
+/-! ## ray_capsule: stage decomposition in continuation-passing form -/
+
+/-- candidate update of `ray_capsule` (one root of one cap), continuation-passing -/
+def capsUpdK {K : Type} [Scalar K] {α : Type} (x : K) (part : Int) (root : K) (ok : Bool) (pt : Int)
+    (k : K → Int → α) : α :=
+  let (x, part) :=
+    if ((Scalar.ge root (Scalar.lit 0 0 : K)) && ok) then
+      let (x, part) :=
+        if ((Scalar.lt x (Scalar.lit 0 0 : K)) || (Scalar.lt root x)) then
+          (root, pt)
+        else
+          (x, part)
+      (x, part)
+    else
+      (x, part)
+  k x part
+
+/-- one spherical cap of `ray_capsule` (centre `(0,0,zc')`, `zc = lpnt.z - zc'`), continuation-passing -/
+def capsCapK {K : Type} [Scalar K] {α : Type} (lpnt lvec size : V3 K) (zc : K) (okf : K → Bool) (pt : Int)
+    (x : K) (part : Int) (k : K → Int → α) : α :=
+  let sq_size0 : K := (size.c0 * size.c0)
+  let a : K := (((lvec.c0 * lvec.c0) + (lvec.c1 * lvec.c1)) + (lvec.c2 * lvec.c2))
+  let ldif : V3 K := (⟨lpnt.c0, lpnt.c1, zc⟩ : V3 K)
+  let b : K := (V3.dot lvec ldif)
+  let c : K := ((V3.dot ldif ldif) - sq_size0)
+  let (_, xx) := (Mjw.Gen.Ray._ray_quad (K := K) a b c)
+  capsUpdK x part xx.c0 (okf xx.c0) pt (fun x part => capsUpdK x part xx.c1 (okf xx.c1) pt k)
+
+/-- cylinder-side test of `ray_capsule`, continuation-passing -/
+def capsSideK {K : Type} [Scalar K] {α : Type} (lpnt lvec size : V3 K) (k : K → α) : α :=
+  let x : K := (Scalar.lit (-1) 0 : K)
+  let sq_size0 : K := (size.c0 * size.c0)
+  let a : K := ((lvec.c0 * lvec.c0) + (lvec.c1 * lvec.c1))
+  let b : K := ((lvec.c0 * lpnt.c0) + (lvec.c1 * lpnt.c1))
+  let c : K := (((lpnt.c0 * lpnt.c0) + (lpnt.c1 * lpnt.c1)) - sq_size0)
+  let (sol, xx) := (Mjw.Gen.Ray._ray_quad (K := K) a b c)
+  let x :=
+    if ((Scalar.ge sol (Scalar.lit 0 0 : K)) && (Scalar.le (Scalar.abs (lpnt.c2 + (sol * lvec.c2))) size.c1)) then
+      let x :=
+        if ((Scalar.lt x (Scalar.lit 0 0 : K)) || (Scalar.lt sol x)) then
+          sol
+        else
+          x
+      x
+    else
+      x
+  k x
+
+def capsNormal {K : Type} [Scalar K] (mat : M33 K) (lpnt lvec size : V3 K) (x : K) (part : Int) : V3 K :=
+    let normal : V3 K := (V3.zero : V3 K)
+    let normal :=
+      if (Scalar.ge x (Scalar.lit 0 0 : K)) then
+        let normal : V3 K := { normal with c0 := (lpnt.c0 + (lvec.c0 * x)) }
+        let normal : V3 K := { normal with c1 := (lpnt.c1 + (lvec.c1 * x)) }
+        let normal :=
+          if (decide (part = (0 : Int))) then
+            let normal : V3 K := { normal with c2 := (Scalar.lit 0 0 : K) }
+            normal
+          else
+            let normal : V3 K := { normal with c2 := ((lpnt.c2 + (lvec.c2 * x)) - (size.c1 * (Scalar.ofInt part : K))) }
+            normal
+        let normal : V3 K := (V3.normalize normal)
+        let normal : V3 K := (M33.mulVec mat normal)
+        normal
+      else
+        normal
+    normal
+
+theorem ray_capsule_eq (pos : V3 ℝ) (mat : M33 ℝ) (size pnt vec : V3 ℝ) :
+    ray_capsule pos mat size pnt vec =
+      (let ssz : ℝ := size.c0 + size.c1
+       let (dist_sphere, normal_sphere) := ray_sphere pos (ssz * ssz) pnt vec
+       if Scalar.lt dist_sphere (Scalar.lit 0 0 : ℝ) then ((Scalar.lit (-1) 0 : ℝ), (V3.zero : V3 ℝ))
+       else
+         let (lpnt, lvec) := _ray_map pos mat pnt vec
+         capsSideK lpnt lvec size (fun x =>
+         capsCapK lpnt lvec size (lpnt.c2 - size.c1) (fun r => Scalar.ge (lpnt.c2 + (r * lvec.c2)) size.c1) 1 x 0
+           (fun x part =>
+         capsCapK lpnt lvec size (lpnt.c2 + size.c1) (fun r => Scalar.le (lpnt.c2 + (r * lvec.c2)) (-size.c1)) (-1)
+           x part (fun x part => (x, capsNormal mat lpnt lvec size x part))))) := by
+  rfl
+
+theorem capsUpdK_spec (x : ℝ) (part : Int) (root : ℝ) (ok : Bool) (pt : Int) (I : ℝ → Int → Prop)
+    (hx : x = -1 ∨ 0 ≤ x) (hI : 0 ≤ x → I x part) (hnew : 0 ≤ root → ok = true → I root pt) :
+    ∃ (x' : ℝ) (part' : Int),
+      (∀ {α : Type} (k : ℝ → Int → α), capsUpdK x part root ok pt k = k x' part') ∧
+      (x' = -1 ∨ 0 ≤ x') ∧ (0 ≤ x' → I x' part') := by
+  by_cases h1 : 0 ≤ root ∧ ok = true
+  · by_cases h2 : x < 0 ∨ root < x
+    · refine ⟨root, pt, ?_, Or.inr h1.1, fun _ => hnew h1.1 h1.2⟩
+      intro α k
+      simp only [capsUpdK, sge, slt, lit_zero, Bool.and_eq_true, Bool.or_eq_true, h1, h2, and_self, if_true]
+    · refine ⟨x, part, ?_, hx, hI⟩
+      intro α k
+      simp only [capsUpdK, sge, slt, lit_zero, Bool.and_eq_true, Bool.or_eq_true, h1, h2, and_self, if_true,
+        if_false]
+  · refine ⟨x, part, ?_, hx, hI⟩
+    intro α k
+    simp only [capsUpdK, sge, slt, lit_zero, Bool.and_eq_true, Bool.or_eq_true, h1, if_false]
+
+theorem capsCapK_spec (lp lv size : V3 ℝ) (zc : ℝ) (okf : ℝ → Bool) (pt : Int) (x : ℝ) (part : Int)
+    (I : ℝ → Int → Prop) (hx : x = -1 ∨ 0 ≤ x) (hI : 0 ≤ x → I x part)
+    (hnew : ∀ r : ℝ, 0 ≤ r → okf r = true →
+      (lp.c0 + r * lv.c0) * (lp.c0 + r * lv.c0) + (lp.c1 + r * lv.c1) * (lp.c1 + r * lv.c1) +
+        (zc + r * lv.c2) * (zc + r * lv.c2) = size.c0 * size.c0 → I r pt) :
+    ∃ (x' : ℝ) (part' : Int),
+      (∀ {α : Type} (k : ℝ → Int → α), capsCapK lp lv size zc okf pt x part k = k x' part') ∧
+      (x' = -1 ∨ 0 ≤ x') ∧ (0 ≤ x' → I x' part') := by
+  have hq := quad_sol (lv.c0 * lv.c0 + lv.c1 * lv.c1 + lv.c2 * lv.c2)
+    (lv.c0 * lp.c0 + lv.c1 * lp.c1 + lv.c2 * zc)
+    (lp.c0 * lp.c0 + lp.c1 * lp.c1 + zc * zc - size.c0 * size.c0)
+    (by nlinarith [mul_self_nonneg lv.c0, mul_self_nonneg lv.c1, mul_self_nonneg lv.c2])
+    (by intro h0; obtain ⟨z0, z1, z2⟩ := sq3_zero h0; rw [z0, z1, z2]; ring)
+  dsimp only at hq
+  obtain ⟨-, -, hr0, hr1⟩ := hq
+  set q := _ray_quad (lv.c0 * lv.c0 + lv.c1 * lv.c1 + lv.c2 * lv.c2)
+    (lv.c0 * lp.c0 + lv.c1 * lp.c1 + lv.c2 * zc)
+    (lp.c0 * lp.c0 + lp.c1 * lp.c1 + zc * zc - size.c0 * size.c0) with hqdef
+  obtain ⟨xa, pa, eqa, hxa, hIa⟩ := capsUpdK_spec x part q.2.c0 (okf q.2.c0) pt I hx hI
+    (fun h0 hok => hnew _ h0 hok (by have := hr0 h0; nlinarith [this]))
+  obtain ⟨xb, pb, eqb, hxb, hIb⟩ := capsUpdK_spec xa pa q.2.c1 (okf q.2.c1) pt I hxa hIa
+    (fun h0 hok => hnew _ h0 hok (by have := hr1 h0; nlinarith [this]))
+  refine ⟨xb, pb, ?_, hxb, hIb⟩
+  intro α k
+  simp only [capsCapK, V3.dot, hmul, hadd, hsub, ← hqdef]
+  rw [eqa, eqb]
+
+/-- the ray point at parameter `t` lies on part `part` of the capsule surface
+    (0 = cylinder side, 1 = top cap, -1 = bottom cap) -/
+def CapsHit (lp lv size : V3 ℝ) (t : ℝ) (part : Int) : Prop :=
+  (part = 0 ∧ (lp.c0 + t * lv.c0) * (lp.c0 + t * lv.c0) + (lp.c1 + t * lv.c1) * (lp.c1 + t * lv.c1) =
+      size.c0 * size.c0 ∧ |lp.c2 + t * lv.c2| ≤ size.c1) ∨
+  (part = 1 ∧ (lp.c0 + t * lv.c0) * (lp.c0 + t * lv.c0) + (lp.c1 + t * lv.c1) * (lp.c1 + t * lv.c1) +
+      (lp.c2 + t * lv.c2 - size.c1) * (lp.c2 + t * lv.c2 - size.c1) = size.c0 * size.c0 ∧
+      size.c1 ≤ lp.c2 + t * lv.c2) ∨
+  (part = -1 ∧ (lp.c0 + t * lv.c0) * (lp.c0 + t * lv.c0) + (lp.c1 + t * lv.c1) * (lp.c1 + t * lv.c1) +
+      (lp.c2 + t * lv.c2 + size.c1) * (lp.c2 + t * lv.c2 + size.c1) = size.c0 * size.c0 ∧
+      lp.c2 + t * lv.c2 ≤ -size.c1)
+
+theorem capsSideK_spec (lp lv size : V3 ℝ) :
+    ∃ x' : ℝ, (∀ {α : Type} (k : ℝ → α), capsSideK lp lv size k = k x') ∧
+      (x' = -1 ∨ 0 ≤ x') ∧ (0 ≤ x' → CapsHit lp lv size x' 0) := by
+  have hq := quad_sol (lv.c0 * lv.c0 + lv.c1 * lv.c1) (lv.c0 * lp.c0 + lv.c1 * lp.c1)
+    (lp.c0 * lp.c0 + lp.c1 * lp.c1 - size.c0 * size.c0)
+    (by nlinarith [mul_self_nonneg lv.c0, mul_self_nonneg lv.c1])
+    (by intro h0; obtain ⟨z0, z1⟩ := sq2_zero h0; rw [z0, z1]; ring)
+  dsimp only at hq
+  obtain ⟨hr, -, -, -⟩ := hq
+  set q := _ray_quad (lv.c0 * lv.c0 + lv.c1 * lv.c1) (lv.c0 * lp.c0 + lv.c1 * lp.c1)
+    (lp.c0 * lp.c0 + lp.c1 * lp.c1 - size.c0 * size.c0) with hqdef
+  by_cases h1 : 0 ≤ q.1 ∧ |lp.c2 + q.1 * lv.c2| ≤ size.c1
+  · refine ⟨q.1, ?_, Or.inr h1.1, fun _ => Or.inl ⟨rfl, ?_, h1.2⟩⟩
+    · intro α k
+      have hlt : (-1 : ℝ) < 0 ∨ q.1 < -1 := Or.inl (by norm_num)
+      simp only [capsSideK, sge, sle, slt, sabs, lit_zero, lit_neg_one, Bool.and_eq_true, Bool.or_eq_true,
+        hmul, hadd, hsub, ← hqdef, h1, hlt, and_self, if_true]
+    · have := (hr h1.1).1
+      nlinarith [this]
+  · refine ⟨-1, ?_, Or.inl rfl, fun h => absurd h (by norm_num)⟩
+    intro α k
+    simp only [capsSideK, sge, sle, slt, sabs, lit_zero, lit_neg_one, Bool.and_eq_true, Bool.or_eq_true,
+      hmul, hadd, hsub, ← hqdef, h1, if_false]
+
+theorem ray_capsule_spec (pos : V3 ℝ) (mat : M33 ℝ) (size pnt vec : V3 ℝ) :
+    ((ray_sphere pos ((size.c0 + size.c1) * (size.c0 + size.c1)) pnt vec).1 < 0 ∧
+      ray_capsule pos mat size pnt vec = (-1, V3.zero)) ∨
+    (¬ (ray_sphere pos ((size.c0 + size.c1) * (size.c0 + size.c1)) pnt vec).1 < 0 ∧
+      ∃ (x : ℝ) (part : Int),
+        ray_capsule pos mat size pnt vec =
+          (x, capsNormal mat (_ray_map pos mat pnt vec).1 (_ray_map pos mat pnt vec).2 size x part) ∧
+        (x = -1 ∨ 0 ≤ x) ∧
+        (0 ≤ x → CapsHit (_ray_map pos mat pnt vec).1 (_ray_map pos mat pnt vec).2 size x part)) := by
+  obtain ⟨lp, lv, hl⟩ : ∃ lp lv, _ray_map pos mat pnt vec = (lp, lv) := ⟨_, _, rfl⟩
+  obtain ⟨d, n, hd⟩ : ∃ d n, ray_sphere pos ((size.c0 + size.c1) * (size.c0 + size.c1)) pnt vec = (d, n) :=
+    ⟨_, _, rfl⟩
+  rw [ray_capsule_eq]
+  simp only [hl, hd, slt, lit_zero, lit_neg_one]
+  by_cases hneg : d < 0
+  · left
+    exact ⟨hneg, by rw [if_pos hneg]⟩
+  · right
+    refine ⟨hneg, ?_⟩
+    rw [if_neg hneg]
+    obtain ⟨x0, eq0, hx0, hI0⟩ := capsSideK_spec lp lv size
+    obtain ⟨x1, p1, eq1, hx1, hI1⟩ := capsCapK_spec lp lv size (lp.c2 - size.c1)
+      (fun r => Scalar.ge (lp.c2 + (r * lv.c2)) size.c1) 1 x0 0 (CapsHit lp lv size) hx0 hI0
+      (fun r h0 hok he => Or.inr (Or.inl ⟨rfl, by nlinarith [he], by simpa using hok⟩))
+    obtain ⟨x2, p2, eq2, hx2, hI2⟩ := capsCapK_spec lp lv size (lp.c2 + size.c1)
+      (fun r => Scalar.le (lp.c2 + (r * lv.c2)) (-size.c1)) (-1) x1 p1 (CapsHit lp lv size) hx1 hI1
+      (fun r h0 hok he => Or.inr (Or.inr ⟨rfl, by nlinarith [he], by simpa using hok⟩))
+    refine ⟨x2, p2, ?_, hx2, hI2⟩
+    rw [eq0, eq1, eq2]
+
+theorem sqrt9 : Real.sqrt 9 = 3 := by
+  rw [show (9:ℝ) = 3 ^ 2 by norm_num]; exact Real.sqrt_sq (by norm_num)
+
+theorem sqrt25 : Real.sqrt 25 = 5 := by
+  rw [show (25:ℝ) = 5 ^ 2 by norm_num]; exact Real.sqrt_sq (by norm_num)
 
 end Mjw.Lemmas.C34
